@@ -110,7 +110,7 @@ def model_tok_line(r, tk_index):
 
 def run(ctx):
     import t_tokens, t_lextables, t_completion, t_ast
-    bindir = vlib.build_harness(False, bins=["idedump", "lexdump", "parsedump"])
+    bindir = vlib.build_harness(False, bins=["idedump", "lexdump", "parsedump", "compsession"])
     fails = vlib.proof_step(ctx, "TG.Props.C20", THEOREMS, ["props/C20.vo"], TRUSTED, translators=TRANSLATORS)
     fails = G.own_failures(fails, ["props/C20.vo"])
     rk = vlib.prove("TG.Props.C20Known", KNOWN_THEOREMS, ["props/C20Known.vo"])
@@ -287,6 +287,8 @@ def run(ctx):
         wss.append({"files": [["root.td", text]], "root": "root.td", "hint_ranges": [], "completion": True})
         metas.append({"table": table, "outside": {}, "truncated": table is None})
     for i in range(nws):
+        if i % 4 == 3:
+            gen.n = ctx.rng.randint(0, 6)       # class names C1.. reused across workspaces of the same process with other parameter counts
         files, root, table, outside = gen.workspace()
         trunc = ctx.rng.random() < 0.25
         if trunc:
@@ -410,6 +412,95 @@ def run(ctx):
                     ties += 1
                     if disp_viol is None:
                         disp_viol = (wss[wi], p, o, trig, real, model)
+    # ------------------------------------------------------------------ oracle 5: after a `!` (trigger) every accepted operator is offered,
+    # whatever follows the cursor (fixed contexts + every `!` of the generated workspaces)
+    bang_ctx = []
+    for text in ("!", "!foo", "!size(xs)", "!n", "class A { int a = !n; }", "defvar v = !add(1, 2);", "class A { int a = !; }", "def d : B<!lt(1, 2)>;"):
+        for o in range(len(text)):
+            if text[o] == "!":
+                bang_ctx.append(({"files": [["root.td", text]], "root": "root.td", "offsets": [["root.td", o + 1]], "hint_ranges": [], "completion": True}, "root.td", o + 1))
+    rb = idedump(bindir, [w for w, _, _ in bang_ctx])
+    after_bang = [(w, p, o, comp_at(r, p, o)[1]) for (w, p, o), r in zip(bang_ctx, rb) if "panic" not in r]
+    for wi, (ws, r) in enumerate(zip(wss, res)):
+        if "panic" in r:
+            continue
+        for p in r["workspace"]:
+            tb_ = dict(ws["files"])[p].encode()
+            offs = [o + 1 for o in range(len(tb_)) if tb_[o] == 0x21]
+            if offs:
+                per = L.expand_runs(r["at"][p], offs)
+                for o in offs:
+                    after_bang.append((ws, p, o, per[o].get("compbang")))
+    bang_viol = None
+    for ws, p, o, cb in after_bang:
+        evals += 1
+        labels = [i[0] for i in (cb or []) if i[2] == "Keyword"]
+        missing = [x for x in accepted if x not in labels and ("lexed-not-offered:" + x) not in known]
+        if missing and (bang_viol is None or len(json.dumps(ws)) < len(json.dumps(bang_viol[0]))):
+            bang_viol = (ws, p, o, missing, cb)
+    if bang_viol:
+        ws, p, o, missing, cb = bang_viol
+        found = True
+        ctx.violation("C20 after `!` (offset %d of %r, trigger `!`) the operators %s, which the lexer accepts, are not offered" % (
+            o, dict(ws["files"])[p], missing[:6]),
+            {"property": "C20", "kind": "after-bang", "workspace": ws, "file": p, "offset": o, "missing": missing,
+             "completion": cb, "seed": ctx.seed})
+    ctx.cov["after_bang_positions"] = len(after_bang)
+
+    # ------------------------------------------------------------------ oracle 6: sessions (one AnalysisHost, edits between completion requests;
+    # all sessions in ONE process): class items follow the CURRENT text
+    nsess = 12 if ctx.quick else 120
+    pool = ["Base", "Mid", "Leaf", "K1", "K2"]
+    sessions, expects = [], []
+    for si in range(nsess):
+        steps, exp = [], []
+        for ei in range(ctx.rng.randint(2, 5)):
+            names = ctx.rng.sample(pool, ctx.rng.randint(1, 4))
+            table, parts = {}, []
+            for nm in names:
+                k = ctx.rng.choice([0, 1, 2, 3, 4])
+                table[nm] = k
+                parts.append("class %s%s;" % (nm, gen.params(k)))
+            tgt = ctx.rng.choice(names)
+            text = " ".join(parts) + " def Z%d : %s" % (ei, tgt)
+            off = len(text.encode())
+            text += ctx.rng.choice([";", "<>;", " { }"])
+            steps.append({"set": ["s.td", text]})
+            steps.append({"complete": ["s.td", off, None]})
+            exp.append((text, off, table))
+        sessions.append({"files": [], "steps": steps})
+        expects.append(exp)
+    sres = L.run_json(os.path.join(bindir, "compsession"), sessions)
+    sess_viol = None
+    sess_steps = 0
+    for sess, exp, r in zip(sessions, expects, sres):
+        if isinstance(r, dict):
+            found = True
+            ctx.violation("C20 completion session panicked: %s" % r.get("panic"), {"property": "C20", "kind": "session", "session": sess, "seed": ctx.seed})
+            continue
+        for stepi, ((text, off, table), comp) in enumerate(zip(exp, r)):
+            evals += 1
+            sess_steps += 1
+            nontrivial.add(("session", text))
+            bad = None
+            if comp is None or sorted(i[0] for i in comp) != sorted(table):
+                bad = "labels %s, classes of the current text %s" % (sorted(i[0] for i in comp or []), sorted(table))
+            else:
+                for lab, snip, kind in comp:
+                    nz = [x for x in L.snippet_tabstops(snip or "") if x != 0]
+                    if kind != "Class" or snip is None or not snip.startswith(lab) or len(nz) != table[lab] or len(set(nz)) != len(nz):
+                        bad = "class %s has %d template parameter(s) in the current text: item %r" % (lab, table[lab], [lab, snip, kind])
+                        break
+            if bad and sess_viol is None:
+                sess_viol = ({"files": [], "steps": sess["steps"][:2 * stepi + 2]}, stepi, bad, comp, table)
+    if sess_viol:
+        sess, stepi, bad, comp, table = sess_viol
+        found = True
+        ctx.violation("C20 class completion after %d edit(s) in one session: %s" % (stepi, bad),
+                      {"property": "C20", "kind": "session", "session": sess, "step": stepi, "detail": bad, "completion": comp,
+                       "classes_of_workspace": table, "seed": ctx.seed})
+    ctx.cov["session_steps"] = sess_steps
+
     if disp_viol and not found:
         ws, p, o, trig, real, model = disp_viol
         fails.append({"kind": "correspondence", "file": "completion model vs Analysis::completion (%d offsets differ)" % ties})
@@ -418,6 +509,7 @@ def run(ctx):
                        "workspace": ws, "file": p, "offset": o, "trigger": bool(trig), "implementation": real, "model": model,
                        "disagreeing_offsets": ties, "seed": ctx.seed}, no_failing_input=True)
         found = True
+
 
     # ------------------------------------------------------------------ known-finding theorems
     if known_fails:
@@ -463,7 +555,7 @@ def run(ctx):
 
 def replay(ctx, path):
     obj = json.load(open(path))
-    bindir = vlib.build_harness(False, bins=["idedump", "lexdump", "parsedump"])
+    bindir = vlib.build_harness(False, bins=["idedump", "lexdump", "parsedump", "compsession"])
     try:
         exe = vlib.build_model("compl")
     except vlib.BuildError:
@@ -501,6 +593,28 @@ def replay(ctx, path):
                   [c for c in [c for c in r["tree"][4] if c[0] == "N"][0][4] if c[0] == "N"][:1] and
                   [c for c in [c for c in r["tree"][4] if c[0] == "N"][0][4] if c[0] == "N"][0][1] == "Error" for r in rs)
         print("oracle: none of the inputs is accepted as a statement starting with %r: %s" % (obj["keyword"], bad))
+    elif kind == "after-bang":
+        ws = dict(obj["workspace"])
+        ws["offsets"] = [[obj["file"], obj["offset"]]]
+        r = idedump(bindir, [ws])[0]
+        comp, compbang = comp_at(r, obj["file"], obj["offset"])
+        labels = [i[0] for i in (compbang or [])]
+        print("input: %r offset %d trigger '!'" % (dict(obj["workspace"]["files"])[obj["file"]], obj["offset"]))
+        print("implementation (completion):", json.dumps(labels))
+        lc = lexdump(bindir, ["!" + o for o in obj["missing"]])
+        acc = [o for o, rr in zip(obj["missing"], lc) if single_token(rr, "!" + o)[0] not in (None, "Error", "Id")]
+        print("oracle: accepted by the lexer but not offered:", [o for o in acc if o not in labels])
+        bad = any(o not in labels for o in acc)
+    elif kind == "session":
+        r = L.run_json(os.path.join(bindir, "compsession"), [obj["session"]])[0]
+        last = r[-1] if isinstance(r, list) and r else r
+        table = obj.get("classes_of_workspace") or {}
+        print("input (session steps):", json.dumps(obj["session"]["steps"]))
+        print("implementation (last completion):", json.dumps(last))
+        print("oracle: classes of the current text:", json.dumps(table))
+        ok = isinstance(last, list) and sorted(i[0] for i in last) == sorted(table) and all(
+            i[1] is not None and len([x for x in L.snippet_tabstops(i[1]) if x]) == table[i[0]] for i in last)
+        bad = not ok
     elif kind in ("classes", "dispatch"):
         ws = dict(obj["workspace"])
         ws["offsets"] = [[obj["file"], obj["offset"]]]
